@@ -1,8 +1,11 @@
 #!/bin/sh
-# Offline setup: nothing to build besides a warm-up of the Verus cache directory layout.
+# Offline setup: directories, tool presence, and a warm build of the replay crate (real rsactor + real tokio from the local
+# cargo registry) so that the first witness / bounded stand-in run does not pay the dependency compile time.
 set -e
 cd "$(dirname "$0")"
 mkdir -p build evidence replays
 command -v verus >/dev/null || { echo "verus not on PATH"; exit 1; }
 python3 -c "import sys; sys.exit(0)"
+CARGO_NET_OFFLINE=true CARGO_TARGET_DIR="$(pwd)/build/replay-target" cargo build --offline -q \
+    --manifest-path replay/Cargo.toml --features test-utils,metrics >/dev/null 2>&1 || echo "note: replay crate warm build failed (it is rebuilt on demand)"
 echo "setup ok"
